@@ -5,7 +5,7 @@ import json
 HERE = os.path.dirname(os.path.dirname(os.path.abspath(__file__)))
 
 
-def write(prop, tier, seed, cfg, results, kani_res, violations, known_hits, undecided, other, wall):
+def write(prop, tier, seed, cfg, results, kani_res, violations, known_hits, undecided, other, wall, extras=None):
     import props as P
     units = cfg["units"]
     fns, samples, trusted, rewrites = [], [], [], []
@@ -62,6 +62,7 @@ def write(prop, tier, seed, cfg, results, kani_res, violations, known_hits, unde
             known_findings=[dict(obligation=f["id"], text=t) for f, t in known_hits],
             failures_attributed_to_other_properties=[f["id"] for f in other],
             exhaustive=False,
+            thorough=extras or {},
         ),
         assumptions=[k + ": " + v for k, v in P.ASSUMPTIONS.items() if k in cfg.get("assumptions", list(P.ASSUMPTIONS))] + cfg.get("not_decided", []),
         wall_s=round(wall, 2),
